@@ -227,6 +227,9 @@ def compute_simple_persistence(
         )
         all_trapped_charge[i] = trapped_charge_clipped
 
+        # The charge released by this trap goes back to the pixel before the next trap is clipped
+        pixel_array = output_pixel
+
     return output_pixel, all_trapped_charge
 
 
@@ -424,6 +427,9 @@ def compute_persistence(
             trap_capacities=fwc,
         )
         all_trapped_charge[i] = trapped_charge_clipped
+
+        # The charge released by this trap goes back to the pixel before the next trap is clipped
+        pixel_array = output_pixel
 
     return output_pixel, all_trapped_charge
 
